@@ -720,7 +720,12 @@ class adopt:
 
 
 SvcObj = TAbs("Service", fields=dict(run=TAny()), events=False)
-_deref = amethod("weakref.ref.__call__", {"self": None}, doc="weakref: returns the referent or None", result=TOpt(SvcObj))
+def _deref_after(c, ctx, outcome, value, self):
+    if outcome == "return":
+        ctx.ghost.setdefault("c03_dereferenced", []).append(value)
+
+
+_deref = amethod("weakref.ref.__call__", {"self": None}, doc="weakref: returns the referent or None", result=TOpt(SvcObj), emits_after=_deref_after)
 WeakRef = TFn(_deref)
 _deref.params["self"] = WeakRef
 Unit = TObj(RUN + "service:ServiceUnit", service=WeakRef, flavour=TAny(), _started=TBool())
@@ -751,6 +756,8 @@ class unit_start:
             "a-started-unit-with-running-runtime-registered-its-run-method-exactly-once-in-its-flavour": c.Implies(
                 c.And(alive, c.Not(svc), present), c.And(c.n_events() == 2, Event.e_kind(e0) == c.ctx.E.event_kind("call"), Event.e_b(e0) == r0.t,
                                                        Event.e_kind(e1) == c.ctx.E.event_kind("register_payload"), Event.e_a(e1) == r0._runners[fl].t)),
+            # (whatever the service object is like - also one that is falsy, e.g. an empty container - it is started; only a collected one is not)
+            "a-service-that-is-still-alive-is-started": c.And(*[c.Implies(c.Not(Z.is_none(v.t)), alive) for v in c.ctx.ghost.get("c03_dereferenced", [])]) if getattr(c, "mode", None) == "prove" else True,
             "a-collected-service-is-skipped": c.Implies(c.And(c.Not(alive), c.Not(svc)), c.And(c.no_events(), *[c.ctx.rd(c.new_heap, f) == c.ctx.rd(c.old_heap, f) for f in HEAPS])),
         }
 
